@@ -61,6 +61,7 @@ def simulate(program, deselected=None):
     stop = bool(cfg.get("stop") or cfg.get("wip_flag"))
     faults = {int(k): exc for k, exc in program.get("hook_faults", [])}
     named_faults = dict(((n, i), e) for n, i, e in program.get("hook_faults_named") or [])
+    fault_kinds_used = set(faults.values()) | set(named_faults.values())
     hook_cleanups = {}
     for c in program.get("cleanups", []):
         hook_cleanups.setdefault(int(c["at"]), []).append(bool(c.get("raises")))
@@ -69,6 +70,7 @@ def simulate(program, deselected=None):
     cont = bool(cfg.get("continue_after_failed"))
 
     ref = Ref()
+    ref.fault_kinds = sorted(fault_kinds_used)
     ref.calls = []
     ref.hooks = []          # (name, ident, open?)
     ref.selected = []       # scenario instance names, run order
@@ -110,7 +112,7 @@ def simulate(program, deselected=None):
             layers[-1].cleanups.append(("h%d" % k, raises))
         if k not in faults and (name, ident) in named_faults:
             faults[k] = named_faults[(name, ident)]
-        if faults.get(k) == "skip":
+        if faults.get(k) in ("skip", "skip_mark"):
             # the hook excludes its element at run time (documented: feature.skip() / scenario.skip()
             # in a before-hook); in any other hook this fault kind does nothing
             if owner is not None and name in ("before_feature", "before_rule", "before_scenario"):
@@ -208,8 +210,8 @@ def simulate(program, deselected=None):
             ref.not_selected.append(name)
             ref.skipped_by_hook.add(("scenario", name))
         elif layer.hook_failed or state["aborted"]:
-            # body suppressed
-            sts = ["untested"] * len(steps)
+            # body suppressed (a run-time skip() after a failing hook marks the not executed steps skipped)
+            sts = ["skipped" if layer.skip_requested else "untested"] * len(steps)
             ref.suppressed.add(name)
             failed = layer.hook_failed
         else:
